@@ -816,9 +816,15 @@ reprocess:
 			}
 			memcpy(&arg_int, &buf[data_pos], sizeof(int));
 			data_pos += sizeof(int);
-			fmt_pos += snprintf(&fmt[fmt_pos],
-					   MINI_FORMAT_STR_LEN - fmt_pos,
-					   "%d", arg_int);
+			if (arg_int < 0 && fmt_pos > 1 && fmt[fmt_pos - 1] == '.') {
+				/* a negative precision counts as none given
+				 * ("%.-1d" is not a directive) */
+				fmt_pos--;
+			} else {
+				fmt_pos += snprintf(&fmt[fmt_pos],
+						   MINI_FORMAT_STR_LEN - fmt_pos,
+						   "%d", arg_int);
+			}
 			format++;
 			goto reprocess;
 		}
